@@ -238,3 +238,13 @@ _other("C20", [("contracts.units_core", c) for c in ("UnitStr", "UnitRepr", "Spl
 from contracts import registry as _R   # noqa: E402
 for _pid in ("C12", "C13"):
     PLANS[_pid].proofs += [("contracts.registry", n) for n in _R.ALL]
+
+
+# unary and out= forms of __array_ufunc__
+_UNARY_PLAIN = [("contracts.ufunc", n) for n in _U.UNARY if not n.endswith("_offset") and "_offset_" not in n]
+_UNARY_OFFSET = [("contracts.ufunc", n) for n in _U.UNARY if n.endswith("_offset") or "_offset_" in n]
+_OUTV = [("contracts.ufunc", n) for n in _U.OUT_VARIANTS]
+PLANS["C04"].proofs += _UNARY_PLAIN + _OUTV
+PLANS["C18"].proofs += _OUTV + [("contracts.ufunc", n) for n in _U.UNARY if "_out_" in n]
+PLANS["C08"].proofs += _UNARY_OFFSET
+PLANS["C16"].proofs += [("contracts.ufunc", n) for n in _U.UNARY if "_out_" not in n and "_offset" not in n]
